@@ -259,6 +259,89 @@ def _rng_origin(ctx, f, recv, depth=0):
     return (False, norm_text(recv))
 
 
+# --------------------------------------------------------------------- RNG-FWD
+def _gen_params(f):
+    """parameters of a callable that seed its randomness: passed to check_random_state"""
+    out = []
+    loc = f.local_names()
+    for n in ast.walk(f.node):
+        if isinstance(n, ast.Call) and (f.module.resolve(n.func, loc) or '').endswith(
+                'check_random_state') and len(n.args) == 1 and \
+                isinstance(n.args[0], ast.Name) and n.args[0].id in f.params + f.kwonly:
+            if n.args[0].id not in out:
+                out.append(n.args[0].id)
+    return out
+
+
+def rng_fwd(ctx):
+    ctx.rule('RNG-FWD', 'a callable that takes a seed/generator forwards it to every callee that '
+             'takes one (otherwise the callee falls back to the global random stream and equal '
+             'seeds no longer give equal results)')
+    from ..model import FunctionInfo, ClassInfo
+    repo = ctx.repo
+    gen = {}
+    for f in repo.all_functions():
+        g = _gen_params(f)
+        if g:
+            gen[f.fq] = (f, g)
+    n = 0
+    for fq, (f, gparams) in sorted(gen.items()):
+        loc = f.local_names()
+        # names that carry the caller's generator
+        carriers = set(gparams)
+        for st in ast.walk(f.node):
+            if isinstance(st, ast.Assign) and isinstance(st.value, ast.Call) and \
+                    (f.module.resolve(st.value.func, loc) or '').endswith('check_random_state') \
+                    and st.value.args and isinstance(st.value.args[0], ast.Name) and \
+                    st.value.args[0].id in carriers:
+                for t in st.targets:
+                    if isinstance(t, ast.Name):
+                        carriers.add(t.id)
+        for node in ast.walk(f.node):
+            if not isinstance(node, ast.Call):
+                continue
+            callee = None
+            q = f.module.resolve(node.func, loc)
+            tgt = repo.lookup(q) if q and q.startswith('pyins') else None
+            if isinstance(tgt, FunctionInfo):
+                callee = tgt
+            elif isinstance(tgt, ClassInfo):
+                callee = tgt.methods.get('__init__')
+            elif isinstance(node.func, ast.Name) and f.cls is not None and f.params and \
+                    node.func.id == f.params[0] and f.is_classmethod:
+                callee = f.cls.methods.get('__init__')
+            if callee is None or callee.fq not in gen or callee is f:
+                continue
+            cparams = list(callee.params)
+            if callee.cls is not None and not callee.is_static:
+                cparams = cparams[1:]
+            for g in gen[callee.fq][1]:
+                n += 1
+                arg = None
+                for kw in node.keywords:
+                    if kw.arg == g:
+                        arg = kw.value
+                if arg is None and g in cparams and cparams.index(g) < len(node.args):
+                    arg = node.args[cparams.index(g)]
+                star = any(isinstance(a, ast.Starred) for a in node.args) or \
+                    any(kw.arg is None for kw in node.keywords)
+                if arg is None and star:
+                    ctx.ob('RNG-FWD', None, None, 'call with *args/**kwargs', f=f, node=node)
+                    continue
+                ok = isinstance(arg, ast.Name) and arg.id in carriers
+                ctx.ob('RNG-FWD', ok, None, '%s forwards its generator to %s(%s=...)'
+                       % (f.qualname, callee.qualname, g), f=f, node=node,
+                       key='fwd-%s-%s' % (callee.qualname, g),
+                       why='%s takes a seed/generator (%s) but calls %s %s: the callee draws '
+                           'from check_random_state(None), the global stream, so equal seeds give '
+                           'different results' % (
+                               f.qualname, ', '.join(gparams), callee.qualname,
+                               ('without its `%s` argument' % g) if arg is None
+                               else 'with `%s=%s`, which is not the caller\'s generator'
+                               % (g, norm_text(arg))))
+    ctx.floor('RNG-FWD', n, 1, 'generator hand-over sites')
+
+
 # --------------------------------------------------------------------- SCH-RET
 def _doc_return_kinds(f):
     out = []
